@@ -480,7 +480,7 @@ def run(pid, tier):
             mc_runs.append({"spec": spec, "cfg": cfg, "distinct": mc.distinct, "generated": mc.states})
         drv = vlib.build_driver(bdir)
         ep = None
-        if pid in ("C10", "C01", "C02"):
+        if pid == "C10" or (tier == "thorough" and pid in ("C01", "C02", "C03", "C04")):
             ep = eperf_suite(bdir, pid, tier, verdict, vlib.build_lib(bdir))
         execs = workload(pid, tier, rng)
         ngen = 0
